@@ -219,5 +219,167 @@ theorem impliedAll_length (env : JEnv) : ∀ (xs : List Json) (ts : List Ty), im
     · rename_i r hr
       cases hrr : impliedType env x <;> simp_all [errOf]
 
+/-! ### attribute names of an implied object type: the normalised keys, sorted -/
+
+theorem str_lt_of_not (a b : String) (h1 : ¬ a < b) (h2 : a ≠ b) : b < a := by
+  apply Classical.byContradiction
+  intro h3
+  exact h2 (String.le_antisymm (String.not_lt.mp h3) (String.not_lt.mp h1))
+
+theorem insertField_spec (k : String) (t : Ty) : ∀ (ns : List String) (ts : List Ty),
+    ns.length = ts.length → strictAsc ns = true →
+    strictAsc (insertField k t ns ts).1 = true ∧
+    (insertField k t ns ts).1.length = (insertField k t ns ts).2.length ∧
+    (∀ x, x ∈ (insertField k t ns ts).1 ↔ x = k ∨ x ∈ ns) ∧
+    (∀ x ∈ (insertField k t ns ts).1, (∀ y ∈ ns, k < y) → k ≤ x)
+  | [], [], _, _ => by simp [insertField, strictAsc]
+  | [], _ :: _, h, _ => by simp at h
+  | _ :: _, [], h, _ => by simp at h
+  | n :: ns, u :: us, hl, ha => by
+    have ⟨ha', hlt⟩ := strictAsc_cons ha
+    simp only [insertField]
+    by_cases h1 : k < n
+    · simp only [h1, if_true]
+      refine ⟨strictAsc_of ha (fun x hx => ?_), by simpa using hl, by simp, ?_⟩
+      · rcases List.mem_cons.mp hx with rfl | hx
+        · exact h1
+        · exact String.lt_trans h1 (hlt x hx)
+      · intro x hx _
+        rcases List.mem_cons.mp hx with rfl | hx
+        · exact String.le_refl _
+        · rcases List.mem_cons.mp hx with rfl | hx
+          · exact String.not_lt.mp (String.lt_asymm h1)
+          · exact String.not_lt.mp (String.lt_asymm (String.lt_trans h1 (hlt x hx)))
+    · simp only [h1, if_false]
+      by_cases h2 : k = n
+      · subst h2
+        simp only [if_true]
+        refine ⟨ha, by simpa using hl, by simp, ?_⟩
+        intro x hx hall
+        exact absurd (hall k (by simp)) (String.lt_irrefl _)
+      · simp only [h2, if_false]
+        have hnk : n < k := str_lt_of_not k n h1 h2
+        obtain ⟨i1, i2, i3, _⟩ := insertField_spec k t ns us (by simpa using hl) ha'
+        refine ⟨strictAsc_of i1 (fun x hx => ?_), by simp [i2], ?_, ?_⟩
+        · rcases (i3 x).mp hx with rfl | hx
+          · exact hnk
+          · exact hlt x hx
+        · intro x
+          simp only [List.mem_cons, i3]
+          constructor
+          · rintro (h | h | h)
+            · exact .inr (.inl h)
+            · exact .inl h
+            · exact .inr (.inr h)
+          · rintro (h | h | h)
+            · exact .inr (.inl h)
+            · exact .inl h
+            · exact .inr (.inr h)
+        · intro x _ hall
+          exact absurd (hall n (by simp)) (String.lt_asymm hnk)
+
+theorem buildFields_spec (norm : String → String) : ∀ (ks : List String) (ts : List Ty),
+    ks.length = ts.length →
+    strictAsc (buildFields norm ks ts).1 = true ∧
+    (buildFields norm ks ts).1.length = (buildFields norm ks ts).2.length ∧
+    (∀ x, x ∈ (buildFields norm ks ts).1 ↔ x ∈ ks.map norm)
+  | [], [], _ => by simp [buildFields, strictAsc]
+  | [], _ :: _, h => by simp at h
+  | _ :: _, [], h => by simp at h
+  | k :: ks, t :: ts, hl => by
+    obtain ⟨i1, i2, i3⟩ := buildFields_spec norm ks ts (by simpa using hl)
+    obtain ⟨j1, j2, j3, _⟩ := insertField_spec (norm k) t _ _ i2 i1
+    simp only [buildFields]
+    refine ⟨j1, j2, ?_⟩
+    intro x
+    simp [j3, i3]
+
+theorem setTy_length (k : String) (t : Ty) : ∀ (aK : List String) (aT : List Ty), aK.length = aT.length →
+    (setTy k t aK aT).length = aT.length
+  | [], [], _ => rfl
+  | [], _ :: _, h => by simp at h
+  | _ :: _, [], h => by simp at h
+  | n :: ns, u :: us, h => by
+    simp only [setTy]
+    split
+    · simp
+    · simp [setTy_length k t ns us (by simpa using h)]
+
+theorem lookupTy_some_mem {k : String} {t : Ty} : ∀ (aK : List String) (aT : List Ty),
+    lookupTy k aK aT = some t → k ∈ aK
+  | [], _, h => by simp [lookupTy] at h
+  | _ :: _, [], h => by simp [lookupTy] at h
+  | n :: ns, u :: us, h => by
+    simp only [lookupTy] at h
+    split at h
+    · simp [*]
+    · exact List.mem_cons_of_mem _ (lookupTy_some_mem ns us h)
+
+/-- the keys collected by `impliedObjectType`: exactly the keys seen, lists stay parallel -/
+theorem impliedMembers_keys (env : JEnv) : ∀ (ks : List String) (vs : List Json) (aK : List String)
+    (aT : List Ty) (rK : List String) (rT : List Ty), ks.length = vs.length → aK.length = aT.length →
+    impliedMembers env ks vs aK aT = .ok (rK, rT) →
+    rK.length = rT.length ∧ ∀ x, x ∈ rK ↔ x ∈ aK ∨ x ∈ ks
+  | [], [], aK, aT, rK, rT, _, hl, h => by
+    simp [impliedMembers] at h
+    obtain ⟨rfl, rfl⟩ := h
+    exact ⟨hl, by simp⟩
+  | [], _ :: _, _, _, _, _, h, _, _ => by simp at h
+  | _ :: _, [], _, _, _, _, h, _, _ => by simp at h
+  | k :: ks, v :: vs, aK, aT, rK, rT, hkl, hl, h => by
+    simp only [impliedMembers] at h
+    split at h
+    · rename_i aty _
+      split at h
+      · rename_i ex hex
+        split at h
+        · simp at h
+        · obtain ⟨i1, i2⟩ := impliedMembers_keys env ks vs aK _ rK rT (by simpa using hkl)
+            (by rw [setTy_length k aty aK aT hl]; exact hl) h
+          refine ⟨i1, fun x => ?_⟩
+          rw [i2 x]
+          have hk := lookupTy_some_mem aK aT hex
+          constructor
+          · rintro (h | h)
+            · exact .inl h
+            · exact .inr (List.mem_cons_of_mem _ h)
+          · rintro (h | h)
+            · exact .inl h
+            · rcases List.mem_cons.mp h with rfl | h
+              · exact .inl hk
+              · exact .inr h
+      · obtain ⟨i1, i2⟩ := impliedMembers_keys env ks vs (aK ++ [k]) (aT ++ [aty]) rK rT
+          (by simpa using hkl) (by simp [hl]) h
+        refine ⟨i1, fun x => ?_⟩
+        rw [i2 x]
+        simp only [List.mem_append, List.mem_cons, List.not_mem_nil, or_false, or_assoc]
+    · rename_i r hr
+      cases hrr : impliedType env v <;> simp_all [errOf]
+
+/-- an implied object type: names strictly ascending, parallel to the types, none optional,
+and exactly the normal forms of the document's keys -/
+theorem implied_object_names (env : JEnv) (ks : List String) (vs : List Json) (t : Ty)
+    (hl : ks.length = vs.length) (h : impliedType env (.obj ks vs) = .ok t) :
+    ∃ ns ts, t = .object ns ts (ns.map fun _ => false) ∧ strictAsc ns = true ∧
+      ns.length = ts.length ∧ ∀ x, x ∈ ns ↔ x ∈ ks.map env.norm := by
+  simp only [impliedType] at h
+  split at h
+  · rename_i aK aT hm
+    split at h
+    · simp at h
+    · simp at h
+      obtain ⟨i1, i2⟩ := impliedMembers_keys env ks vs [] [] aK aT hl rfl hm
+      obtain ⟨j1, j2, j3⟩ := buildFields_spec env.norm aK aT i1
+      refine ⟨_, _, h.symm, j1, j2, fun x => ?_⟩
+      rw [j3 x]
+      simp only [List.mem_map]
+      constructor
+      · rintro ⟨a, ha, rfl⟩
+        exact ⟨a, by simpa using (i2 a).mp ha, rfl⟩
+      · rintro ⟨a, ha, rfl⟩
+        exact ⟨a, (i2 a).mpr (by simpa using ha), rfl⟩
+  · rename_i r hr
+    cases hrr : impliedMembers env ks vs [] [] <;> simp_all [errOf]
+
 end JsonVal
 end CtyModel
